@@ -22,14 +22,17 @@ import (
 	"math/rand"
 	nethttp "net/http"
 	"path/filepath"
+	"reflect"
 	"sort"
 	"strconv"
 	"strings"
+	"sync"
 	"testing"
 	"unicode"
 	"unicode/utf8"
 
 	"github.com/rqlite/rqlite/v10/proxy"
+	"github.com/rqlite/rqlite/v10/command/encoding"
 	command "github.com/rqlite/rqlite/v10/command/proto"
 	"github.com/rqlite/rqlite/v10/db"
 	pb "google.golang.org/protobuf/proto"
@@ -325,6 +328,20 @@ type c30Env struct {
 	remote bool
 	nextCS int64
 	close  func()
+	mu     sync.Mutex
+	last   any        // what the store handed to the HTTP layer for the latest query/request
+	kept   []*c30Kept // every rendering made so far, kept to be looked at again later
+}
+
+// c30Kept: one result rendered with the real encoder.  `out` is the slice the encoder returned (NOT copied),
+// `seen` its contents at that moment.  The encoder is a pure function of its input in the model, so `out` must
+// still read `seen` after any number of later renderings, sequential or concurrent.
+type c30Kept struct {
+	in    c30Input
+	form  c30Form
+	value any
+	out   []byte
+	seen  string
 }
 
 func c30Roundtrip[T pb.Message](in T, out T) (T, error) {
@@ -373,6 +390,9 @@ func c30NewEnv(t *testing.T) *c30Env {
 					}
 				}
 			}
+			e.mu.Lock()
+			e.last = rows
+			e.mu.Unlock()
 			return rows, 1, err
 		},
 		requestFn: func(eqr *command.ExecuteQueryRequest) ([]*command.ExecuteQueryResponse, uint64, uint64, error) {
@@ -388,6 +408,9 @@ func c30NewEnv(t *testing.T) *c30Env {
 					}
 				}
 			}
+			e.mu.Lock()
+			e.last = r
+			e.mu.Unlock()
 			return r, 1, 1, err
 		},
 	}
@@ -695,6 +718,23 @@ func c30Run(e *c30Env, w *vWriter, in c30Input) {
 				respObs = append(respObs, fmt.Sprintf("(%s, %s, RFail)", coqBool(f.Assoc), coqBool(f.BlobArr)))
 				continue
 			}
+			// the same result rendered by the encoder directly: must be what the HTTP reply carries, and is kept
+			e.mu.Lock()
+			captured := e.last
+			e.mu.Unlock()
+			if captured != nil {
+				enc := encoding.Encoder{Associative: f.Assoc, BlobsAsByteArrays: f.BlobArr}
+				if out, err := enc.JSONMarshal(captured); err == nil {
+					kp := &c30Kept{in: in, form: f, value: captured, out: out, seen: string(out)}
+					e.kept = append(e.kept, kp)
+					dec := json.NewDecoder(strings.NewReader(kp.seen))
+					dec.UseNumber()
+					var direct any
+					if err := dec.Decode(&direct); err != nil || !reflect.DeepEqual(direct, top["results"]) {
+						fail("C30:encoder-and-http-reply-differ", fmt.Sprintf("encoder renders %s, the HTTP reply carries %s", kp.seen, b))
+					}
+				}
+			}
 			// cell(i, c) accessor
 			var cell func(i, c int) (any, bool)
 			nrows := 0
@@ -969,6 +1009,55 @@ func c30GenStr(rng *rand.Rand) c30Val {
 	}
 }
 
+// c30CheckStable: every rendering kept so far must still read what it read when it was made, after (1) all
+// the renderings that followed it, (2) one more rendering of a different result, (3) all kept results rendered
+// again concurrently from several goroutines, each of which must equal its sequential rendering.
+func c30CheckStable(e *c30Env, w *vWriter) {
+	if len(e.kept) == 0 {
+		return
+	}
+	enc := encoding.Encoder{}
+	enc.JSONMarshal([]*command.QueryRows{{Columns: []string{"flush"}, Types: []string{"text"},
+		Values: []*command.Values{{Parameters: []*command.Parameter{{Value: &command.Parameter_S{S: strings.Repeat("#", 4096)}}}}}}})
+	reported := map[string]bool{}
+	report := func(k *c30Kept, how, got string) {
+		key := vJSON(k.in)
+		if reported[key] || len(reported) >= 20 {
+			return
+		}
+		reported[key] = true
+		w.Emit(VCase{Input: k.in, Key: "stable|" + key, Nontrivial: true, Tags: []string{"kind=stability"},
+			OracleFail: fmt.Sprintf("result rendered (associative=%v blob_array=%v) as %.300s reads %.300s %s", k.form.Assoc, k.form.BlobArr, k.seen, got, how),
+			Sig:        "C30:rendered-output-not-stable"})
+	}
+	for _, k := range e.kept {
+		if string(k.out) != k.seen {
+			report(k, "after later results were rendered: the encoder's output aliases memory it reuses", string(k.out))
+		}
+	}
+	var wg sync.WaitGroup
+	var mu sync.Mutex
+	const workers = 8
+	for g := 0; g < workers; g++ {
+		wg.Add(1)
+		go func(g int) {
+			defer wg.Done()
+			for i := g; i < len(e.kept); i += workers {
+				k := e.kept[i]
+				enc := encoding.Encoder{Associative: k.form.Assoc, BlobsAsByteArrays: k.form.BlobArr}
+				out, err := enc.JSONMarshal(k.value)
+				if err != nil || string(out) != k.seen {
+					mu.Lock()
+					report(k, "when rendered again concurrently with other results", string(out))
+					mu.Unlock()
+				}
+			}
+		}(g)
+	}
+	wg.Wait()
+	w.Emit(VCase{Input: map[string]any{"stability_of": len(e.kept)}, Key: "stable|summary", Tags: []string{"kind=stability"}})
+}
+
 func TestVerif_C30(t *testing.T) {
 	w := vOpen()
 	defer w.Close()
@@ -980,8 +1069,10 @@ func TestVerif_C30(t *testing.T) {
 			t.Fatal(err)
 		}
 		c30Run(e, w, in)
+		c30CheckStable(e, w)
 		return
 	}
+	defer c30CheckStable(e, w)
 	rng := vRand()
 	forms := []string{"pos", "named1", "namedN", "mixed"}
 	// corpus: every hand-picked number and string alone, positional and named
